@@ -12,6 +12,72 @@ func init() {
 	vfRegister("VF_C06_pipeline", VF_C06_pipeline)
 	vfRegister("VF_C07_pipeline", VF_C07_pipeline)
 	vfRegister("VF_C06_registered", VF_C06_registered)
+	vfRegister("VF_C13_todo_no_methods", VF_C13_todo_no_methods)
+	vfRegister("VF_C07_pipeline_decorators", VF_C07_pipeline_decorators)
+}
+
+// VF_C13_todo_no_methods: a todo service is exempt from the getter rules
+// because it adds no methods: whatever getter / must_getter / type it
+// declares, the compiled service carries none of them.
+func VF_C13_todo_no_methods() {
+	g := vfStr("getter", 3)
+	t := vfStr("type", 3)
+	must := vfBool("must")
+	yes := true
+	ctor := "NewX"
+	gx := "GetX"
+	in := input.Input{Services: map[string]input.Service{
+		"later": {Todo: &yes, Getter: &g, MustGetter: &must, Type: &t},
+		"real":  {Constructor: &ctor, Getter: &gx},
+	}}
+	w := vfWire()
+	c := New(NewStepValidateInput(input.NewDefaultValidator("")), w.meta, w.pstep, w.services, w.decs)
+	o, err := c.Compile(in)
+	vfAssert(err == nil && len(o.Services) == 2, "a todo service is accepted whatever its attributes")
+	if err != nil || len(o.Services) != 2 {
+		return
+	}
+	for _, s := range o.Services {
+		if s.Name == "later" {
+			vfAssert(s.Todo && s.Getter == "" && !s.MustGetter, "a todo service adds no getter methods")
+		}
+	}
+	vfReach("C13_todo_no_methods")
+}
+
+// VF_C07_pipeline_decorators: from the YAML level: service a carries tag t,
+// b needs @a, and two decorators are attached to t - with the same or with
+// different functions - of which the second needs @b: every decorator of a tag
+// contributes its dependencies, so the configuration is cyclic and rejected.
+func VF_C07_pipeline_decorators() {
+	ctor := "New"
+	fn2 := []string{"Decorate", "Other"}[vfChoice("fn2", 2)]
+	first := []any{"@logger"}
+	if vfBool("firstEmpty") {
+		first = nil
+	}
+	in := input.Input{
+		Services: map[string]input.Service{
+			"a":      {Constructor: &ctor, Tags: []input.Tag{{Name: "t"}}},
+			"b":      {Constructor: &ctor, Args: []any{"@a"}},
+			"logger": {Constructor: &ctor},
+		},
+		Decorators: []input.Decorator{{Tag: "t", Decorator: "Decorate", Args: first}, {Tag: "t", Decorator: fn2, Args: []any{"@b"}}},
+	}
+	w := vfWire()
+	c := New(NewStepValidateInput(input.NewDefaultValidator("")), w.meta, w.pstep, w.services, w.decs)
+	o, err := c.Compile(in)
+	vfAssert(err == nil, "the configuration compiles (cycles are checked afterwards)")
+	if err != nil {
+		return
+	}
+	vfAssert(len(o.Decorators) == 2, "every declared decorator is compiled")
+	cerr := output.ValidateCircularDeps(o)
+	vfAssert(cerr != nil, "a cycle through the second decorator of a tag is detected")
+	if cerr != nil {
+		vfAssert(strings.Contains(cerr.Error(), "@a") && strings.Contains(cerr.Error(), "@b"), "the report shows the cycle through both services")
+	}
+	vfReach("C07_pipeline_decorators")
 }
 
 // VF_C06_registered: what the validators take for declared is declared at run
